@@ -103,6 +103,24 @@ pub fn dispatch(op: &str, a: &[&str]) -> Option<Ans> {
             let mut ul = HeapBytes::from_slice_into_locked(&data).unwrap().munlock().unwrap();
             ul.resize(m, 0);
             if ul.as_slice() != v { return Some((format!("mismatch Unlocked<HeapBytes>::resize {}", hex(ul.as_slice())), ok(&v))); }
+            // … and growing again (into whatever capacity the shrink left behind) pads with zeros, like Vec
+            let back = data.len() + 3;
+            let mut v2 = v.clone();
+            v2.resize(back, 0);
+            hb.resize(back, 0);
+            if hb.as_slice() != v2 { return Some((format!("mismatch HeapBytes::resize({}) then resize({}) {}", m, back, hex(hb.as_slice())), ok(&v))); }
+            lk.resize(back, 0);
+            if lk.as_slice() != v2 { return Some((format!("mismatch Locked<HeapBytes>::resize({}) then resize({}) {}", m, back, hex(lk.as_slice())), ok(&v))); }
+            ul.resize(back, 0);
+            if ul.as_slice() != v2 { return Some((format!("mismatch Unlocked<HeapBytes>::resize({}) then resize({}) {}", m, back, hex(ul.as_slice())), ok(&v))); }
+            // the same through a plain container that was locked and unlocked again, and with a non-zero fill byte
+            let mut h3 = HeapBytes::from(data.as_slice());
+            h3.resize(m, 7);
+            h3.resize(back, 9);
+            let mut v3 = data.clone();
+            v3.resize(m, 7);
+            v3.resize(back, 9);
+            if h3.as_slice() != v3 { return Some((format!("mismatch HeapBytes resize({},7) then resize({},9) {}", m, back, hex(h3.as_slice())), ok(&v))); }
             // clones keep the bytes
             let l2 = HeapBytes::from_slice_into_locked(&data).unwrap();
             let c1 = l2.clone();
